@@ -106,8 +106,15 @@ func (action *ModifyRequestAction) ReqPrioritize(
 		mergedHeaders := utils.MergeHeaders(
 			action.HeadersToSet, other.(*ModifyHeadersAction).HeadersToSet)
 
-		action.HeadersToSet = mergedHeaders
-		prioritizedAction = action
+		// a new action, as in every other merge: the accumulated action may be
+		// the very struct a processor handed in and must not be updated in place
+		prioritizedAction = &ModifyRequestAction{
+			HeadersToSet: mergedHeaders,
+			Host:         action.Host,
+			Path:         action.Path,
+			QueryParams:  action.QueryParams,
+			Body:         action.Body,
+		}
 
 	case sharedActions.ReqModifiedRequest:
 		mergedHeaders := utils.MergeHeaders(
